@@ -1,4 +1,5 @@
 import Relay.Props.HubInv
+import Relay.Extracted.Handlers
 
 /-!
 # C04 — read and write scopes are enforced on every connection
@@ -105,5 +106,14 @@ example :
       = [(0, [[8]], [[8]]), (1, [[8]], []), (2, [], [])] := by decide
 
 example : canReadOf ["Read", "read ", "relay:admin"] = false ∧ canWriteOf ["x", "write", "write"] = true := by decide
+
+/-- **source obligation**: in the pumps of the current source the ONLY guard on the way from a websocket to the hub is the
+    connection's write capability, and the ONLY guard on the way from the hub queue to the websocket is its read capability —
+    no topic, name or scope-string exception (the model's `canWrite` / `canRead` tests are exactly these). -/
+theorem pumps_guard_scopes :
+    Extracted.readPumpGuards = [("send:c.hub.broadcast", "c.canWrite")] ∧
+    Extracted.writePumpGuards = [("c.conn.WriteMessage(websocket.CloseMessage)", "!ok"), ("c.conn.NextWriter", "c.canRead"),
+      ("w.Write", "c.canRead"), ("w.Write", "c.canRead"), ("c.conn.WriteMessage(websocket.PingMessage)", "")] := by
+  decide
 
 end Hub
